@@ -776,7 +776,7 @@ def update_confs(env: Env, report):
         d0, u0 = ci.snapshot(d), ci.snapshot(u)
         status, out = ci.update_conf(d, u)
         impl = {"status": status, "out": ci.to_wire(out) if status == "ok" else out}
-        model = env.lean.call("C05.update_conf", default=ci.to_wire(d), user=ci.to_wire(u))
+        model = env.lean.call("C05.update_conf", default=ci.to_wire(d), user=ci.to_wire(u), flags=env.data["flags"])
         case = {"stream": "update_conf", "default": ci.to_wire(d0), "user": ci.to_wire(u0)}
         if status == "ok":
             if model.get("ok") != impl["out"]:
